@@ -49,7 +49,8 @@ CONSTANTS RMKinds,        \* resource manager kinds explored
           DevLsfTrustConfig,   \* LSF: host file not checked when cores_per_node is configured
           DevGpusAfterList,    \* Slurm: node entries built before the GPUs are detected
           DevTimeoutIsOk,      \* a probe that never answers counts as reachable
-          DevSplitByBackup     \* list split by the number of backup nodes, not by the request
+          DevSplitByBackup,    \* list split by the number of backup nodes, not by the request
+          DevCcmByName         \* CCM: the node file whose name sorts last, not the newest one
 
 VARIABLES in,      \* the input (never changes)
           phase,   \* start parsed blocked cut reserved published recreated | failed
@@ -87,6 +88,7 @@ PSlotsOf(r, ps) == IF r = "LSF" /\ ps # "none" THEN PSlotChoices ELSE {1}
 UnevenOf(r) == IF r = "LSF" THEN BOOLEAN ELSE {FALSE}
 GpuSrcOf(r) == IF r = "SLURM" THEN {"config", "GPUS_ON_NODE", "JOB_GPUS", "STEP_GPUS", "DEVICE_ORDINAL"}
                ELSE {"config"}
+OldFilesOf(r) == IF r = "CCM" THEN {"none", "name_eq_age", "name_ne_age"} ELSE {"none"}
 KnownOf(r)  == IF r \in {"FORK", "COBALT_FILE", "COBALT_PART", "PBSPRO_FILE"} THEN {TRUE} ELSE BOOLEAN
 
 \* number of nodes the RM lists (FORK invents them)
@@ -101,16 +103,23 @@ InSweep(sw, i) ==
          \* host) are crossed with hosts / shape / SMT / configured-or-not, not with the
          \* GPU and blocked core settings
          /\ (i.rm = "LSF" /\ i.cores > MinOf(LsfCoreChoices)) => (i.uneven \/ i.pslots > 1)
+         \* CCM: node files of older jobs are crossed with hosts / shape / SMT / layout only
+         /\ i.oldfiles # "none" => (i.gpn = 0 /\ i.bc = {} /\ i.slack = 0)
          /\ (i.uneven \/ i.pslots > 1) =>
                /\ i.gpn = 0 /\ i.bc = {} /\ i.slack = 0 /\ i.pseudo # "both"
                /\ i.uneven => (i.pslots = 1 /\ i.pseudo \in {"none", "launch"})
+         /\ \/ i.backup = 0 /\ i.agents = 0 /\ ~i.service /\ i.requested = k
+            \/ i.backup = 1 /\ i.agents = 1 /\ ~i.service /\ i.requested = k - 1 /\ k - 1 >= 1
+    [] sw = "lsf" ->       \* C17 share: correctly sized LSF jobs, every pseudo node kind, SMT 1 / 4
+         /\ i.rm = "LSF" /\ i.pslots = 1 /\ ~i.uneven /\ i.cores = MinOf(LsfCoreChoices)
+         /\ i.gpn = 0 /\ i.bc = {} /\ i.slack = 0
          /\ \/ i.backup = 0 /\ i.agents = 0 /\ ~i.service /\ i.requested = k
             \/ i.backup = 1 /\ i.agents = 1 /\ ~i.service /\ i.requested = k - 1 /\ k - 1 >= 1
     [] sw = "filter" ->    \* every layout, one way to write the allocation per RM
          /\ i.cores = MinOf(CoresOf(i.rm)) /\ i.pslots = 1 /\ ~i.uneven /\ i.gpusrc = "config"
          /\ i.hosts = HostSeq(Len(i.hosts), FALSE, "asc")
          /\ i.shape \in {"virtual", "expr", "vnode", "slot_adj"}
-         /\ i.pseudo \in {"none"} /\ i.style \in {"range", "plain"}
+         /\ i.pseudo \in {"none"} /\ i.style \in {"range", "plain"} /\ i.oldfiles = "none"
          /\ i.gpn = 0 /\ i.bc = {} /\ i.slack = 0 /\ i.backup = 0
     [] sw = "probe" ->     \* every probe outcome per node x request x backup, three RMs
          /\ i.rm \in {"SLURM", "TORQUE", "FORK"}
@@ -122,7 +131,7 @@ InSweep(sw, i) ==
          /\ i.requested <= NProbe(i.rm, i.hosts, i.requested, i.backup)
          /\ NProbe(i.rm, i.hosts, i.requested, i.backup) <= MaxHosts
     [] OTHER ->               \* "full": every layout x every classic way to write the allocation
-         /\ ~i.uneven /\ i.pslots = 1 /\ i.gpusrc = "config"
+         /\ ~i.uneven /\ i.pslots = 1 /\ i.gpusrc = "config" /\ i.oldfiles = "none"
          /\ i.cores = MinOf(CoresOf(i.rm)) \/ i.rm # "LSF"
 
 \* outcomes of the probes of the nodes the RM lists
@@ -136,11 +145,12 @@ Inputs(sw, r, hs, c, t, g, bc, b, a, sv) ==
   {[rm |-> r, hosts |-> hs, shape |-> sh, pseudo |-> ps, pslots |-> pn, uneven |-> un, style |-> st,
     cores |-> c, smt |-> t, known |-> kn, gpn |-> g[1], gpusrc |-> gs, bc |-> bc, bg |-> g[2],
     requested |-> rq, slack |-> sl, backup |-> b, agents |-> a, service |-> sv,
-    refused |-> {k \in DOMAIN pr : pr[k] = "refused"}, hangs |-> {k \in DOMAIN pr : pr[k] = "hangs"}] :
+    refused |-> {k \in DOMAIN pr : pr[k] = "refused"}, hangs |-> {k \in DOMAIN pr : pr[k] = "hangs"},
+    oldfiles |-> of] :
       sh \in Lim(sw, ShapesOf(r), {"virtual", "expr", "slot_adj"}), pn \in Lim(sw, PSlotsOf(r, ps), {1}),
       un \in Lim(sw, UnevenOf(r), {FALSE}), st \in Lim(sw, StylesOf(r), {"range", "plain"}),
       kn \in Lim(sw, KnownOf(r), {TRUE}), gs \in Lim(sw, GpuSrcOf(r), {"config"}), sl \in Lim(sw, {0, 1}, {0}),
-      pr \in ProbePlans(sw, NProbe(r, hs, rq, b), b)}
+      pr \in ProbePlans(sw, NProbe(r, hs, rq, b), b), of \in Lim(sw, OldFilesOf(r), {"none"})}
   : rq \in 1 .. (IF r = "FORK" THEN 3 ELSE Len(hs) + 1)}
   : ps \in PseudoOf(r)}
 
@@ -161,13 +171,17 @@ WellFormed(i) ==
 \* the part of InSweep that can be decided before the input records are built
 PreSweep(sw, r, hs, c, g, bc, b, a, sv) ==
   CASE sw = "parse"  -> ~sv /\ ((b = 0 /\ a = 0) \/ (b = 1 /\ a = 1))
+    [] sw = "lsf"    -> /\ r = "LSF" /\ ~sv /\ ((b = 0 /\ a = 0) \/ (b = 1 /\ a = 1))
+                        /\ g = <<0, {}>> /\ bc = {} /\ c = MinOf(LsfCoreChoices)
     [] sw = "filter" -> g[1] = 0 /\ bc = {} /\ b = 0 /\ c = MinOf(CoresOf(r)) /\ hs = HostSeq(Len(hs), FALSE, "asc")
     [] sw = "probe"  -> /\ r \in {"SLURM", "TORQUE", "FORK"} /\ g = <<0, {}>> /\ bc = {} /\ ~sv /\ a <= 1
                            /\ c = MinOf(CoresOf(r)) /\ hs = HostSeq(Len(hs), FALSE, "asc")
     [] OTHER            -> c = MinOf(CoresOf(r)) \/ r # "LSF"
 
 \* "quick" = the three partial sweeps in one run
-SweepsOf == IF Sweep = "quick" THEN {"parse", "filter", "probe"} ELSE {Sweep}
+\* "c17" = what the C17 share of the check looks at
+SweepsOf == IF Sweep = "quick" THEN {"parse", "filter", "probe"}
+            ELSE IF Sweep = "c17" THEN {"probe", "lsf"} ELSE {Sweep}
 
 Init ==
   /\ \E sw \in SweepsOf, r \in RMKinds :
@@ -202,7 +216,9 @@ LsfParse ==
 Parse ==
   /\ phase = "start"
   /\ LET lsf    == in.rm = "LSF"
-         usable == SelectSeq(Lines(in), LAMBDA h : DevKeepPseudo \/ ~IsPseudo(h))
+         \* CCM: the newest nodelist* file of ~/.crayccm is the current job's
+         mine   == IF DevCcmByName /\ in.oldfiles = "name_ne_age" THEN OldLines(in) ELSE Lines(in)
+         usable == SelectSeq(mine, LAMBDA h : DevKeepPseudo \/ ~IsPseudo(h))
          perrm  == IF in.rm = "FORK" THEN AllocHosts(in)
                    ELSE IF lsf THEN LsfParse.hosts
                    ELSE IF DevKeepDuplicates /\ in.shape \in {"slot_adj", "slot_mix"} THEN usable
@@ -220,7 +236,7 @@ Parse ==
   /\ (PrintCases =>
         PrintT(<<"CASE", in.rm, in.hosts, in.shape, in.pseudo, in.pslots, in.uneven, in.style, in.cores,
                  in.smt, in.known, in.gpn, in.gpusrc, in.bc, in.bg, in.requested, in.slack, in.backup,
-                 in.agents, in.service, in.refused, in.hangs>>))
+                 in.agents, in.service, in.refused, in.hangs, in.oldfiles>>))
   /\ UNCHANGED <<in, P, reg, copy, fromreg>>
 
 \* blocked cores / GPUs are marked DOWN in every entry
